@@ -339,6 +339,11 @@ Theorem registers_kept_until_next_match n body st :
   forallb (fun x => negb (sets_registers x)) body = true -> snd (run_block n body st) = st.
 Proof. intro H. unfold run_block. apply run_block_keeps; auto. Qed.
 
+(* the \digits of the replacement argument of sub/gsub belong to that call, whatever the registers hold *)
+Lemma sub_replacement_ignores_registers n glob subj ci r rep st :
+  run_stmt n (SSub glob subj ci r rep) st = ([(if glob then gsub else sub) ci r (eval_lit subj st) (unbackslash rep)], st).
+Proof. destruct n; reflexivity. Qed.
+
 Lemma eval_lit_unset lit : eval_lit lit None = unbackslash lit.
 Proof. reflexivity. Qed.
 
